@@ -100,6 +100,29 @@ let () =
       Printf.printf "%s\t%scalls=%d set=%s perpart=ok cursors=%s\n" id
         (match st with Done -> "" | OutOfFuel -> "NONTERM " | _ -> "err ") (List.length mps) (hl_print items)
         (String.concat "|" (List.map (fun (_, mc) -> cur_str mc) mps))
+    | id :: "F" :: tn :: table :: count :: pat :: _ ->
+      let (ps, st) = iterate_fullscan mini_compile (nat_of_int (!nkeys + !nelems + 3)) !db (dtype_of tn)
+                (bytes_of_hex table) (bytes_of_hex pat) (z_of_int (int_of_string count)) in
+      let plain = (tn = "kv" || tn = "list") in
+      let group items =
+        (* consecutive items of one key form one group *)
+        let rec go acc cur = function
+          | [] -> List.rev (match cur with None -> acc | Some g -> g :: acc)
+          | (k, e) :: r ->
+            (match cur with
+             | Some (k0, es) when k0 = k -> go acc (Some (k0, e :: es)) r
+             | Some g -> go (g :: acc) (Some (k, [e])) r
+             | None -> go acc (Some (k, [e])) r) in
+        go [] None items in
+      let page_str (items, next) =
+        hex_of_bytes next ^ ">" ^
+        String.concat "," (List.map (fun (k, es) ->
+            hex_of_bytes k ^ "=" ^ String.concat "+" (List.map (fun e -> if plain then "-" else hex_of_bytes e) (List.rev es)))
+            (group items)) in
+      let calls = List.length ps + (match st with Failed | Faulted -> 1 | _ -> 0) in
+      let body = List.map page_str ps in
+      let body = match st with Failed -> body @ ["err"] | Faulted -> body @ ["panic"] | _ -> body in
+      Printf.printf "%s\tcalls=%d%s | %s\n" id calls (match st with OutOfFuel -> " NONTERM" | _ -> "") (String.concat " | " body)
     | id :: "X" :: table :: texts :: _ ->
       let tb = bytes_of_hex table in
       let ts = hl_parse texts in
